@@ -282,7 +282,7 @@ def rule_lists(ctx):
     ctx.add("LIST", "Rule:separator", okr, ctx.site(rb), "` :- ` is printed iff the head is empty or the body is not (a fact is `head.`, a constraint `:- body.`)")
     bb = printers.display_impl(fx, "asp", "Body")
     bp = printers.evaluate(fx, bb)
-    seps = [item[1] for c, l, item in bp.out if item[0] == "write"]
+    seps = [sym.anon_format(item)[1] for c, l, item in bp.out if item[0] == "write"]      # a separator kept in a constant is part of the text
     ctx.add("LIST", "Body:separator", seps == ["{}", ", {}"], ctx.site(bb), "body formulas are separated by `, ` (the grammar accepts `,` and `;`)")
     # variables and symbols are printed verbatim
     vb = printers.display_impl(fx, "asp", "Variable")
